@@ -113,4 +113,113 @@ theorem treeReduce_eq_combine (op : M → M → M) (hassoc : ∀ a b c, op (op a
     · rw [treeReduce_eq_combine op hassoc k hk fuel, combine_groups op hassoc,
         partitionAll_flatten k hk ps.length ps (Nat.le_refl _)]
 
+/-! ### first occurrences; list-level shuffle; the shipped rows of a partial -/
+
+theorem mem_dedup {α : Type} [DecidableEq α] (a : α) : ∀ l : List α, a ∈ dedup l ↔ a ∈ l
+  | [] => by simp [dedup]
+  | x :: xs => by
+    simp only [dedup, List.mem_cons, List.mem_filter, decide_eq_true_eq, mem_dedup a xs]
+    by_cases h : a = x <;> simp [h]
+
+theorem nodup_dedup {α : Type} [DecidableEq α] : ∀ l : List α, (dedup l).Nodup
+  | [] => by simp [dedup]
+  | x :: xs => by
+    simp only [dedup, List.nodup_cons, List.mem_filter, decide_eq_true_eq]
+    exact ⟨fun h => h.2 rfl, (nodup_dedup xs).filter _⟩
+
+theorem shuffleOut_eq_filter (h : Nat → Nat) (n p : Nat) (parts : List (List (Nat × V))) :
+    shuffleOut h n p parts = parts.flatten.filter fun r => h r.1 % n == p := by
+  induction parts with
+  | nil => rfl
+  | cons q qs ih =>
+    simp only [shuffleOut, List.map_cons, List.flatten_cons, List.filter_append] at ih ⊢
+    rw [ih]; rfl
+
+/-- **apply family after the shuffle**: the rows of group `k` arrive complete and in frame order in exactly one
+    output partition, `h k % n` -/
+theorem shuffle_group_rows (h : Nat → Nat) (n p k : Nat) (parts : List (List (Nat × V))) :
+    (shuffleOut h n p parts).filter (fun r => r.1 == k) =
+      if h k % n = p then parts.flatten.filter (fun r => r.1 == k) else [] := by
+  rw [shuffleOut_eq_filter, List.filter_filter]
+  split
+  · rename_i hp
+    apply List.filter_congr
+    intro r _
+    by_cases hr : r.1 = k
+    · simp [hr, hp]
+    · simp [hr]
+  · rename_i hp
+    apply List.filter_eq_nil_iff.2
+    intro r _
+    by_cases hr : r.1 = k
+    · simp [hr, hp]
+    · simp [hr]
+
+/-- **ShuffleReduce, list level**: aggregating output partition `p` gives every group with `h k % n = p` its whole-frame
+    aggregate and nothing else -/
+theorem shuffle_out_aggregate (op : M → M → M) (inj : V → Option M) (h : Nat → Nat) (n p k : Nat)
+    (parts : List (List (Nat × V))) :
+    chunk op inj (shuffleOut h n p parts) k = if h k % n = p then chunk op inj parts.flatten k else none := by
+  unfold chunk
+  rw [shuffle_group_rows]
+  split <;> rfl
+
+theorem chunk_no_rows (op : M → M → M) (inj : V → Option M) (rows : List (Nat × V)) (k : Nat)
+    (h : k ∉ rows.map fun r => r.1) : chunk op inj rows k = none := by
+  unfold chunk
+  have : rows.filter (fun r => r.1 == k) = [] := by
+    apply List.filter_eq_nil_iff.2
+    intro r hr hk
+    simp only [beq_iff_eq] at hk
+    exact h (List.mem_map.2 ⟨r, hr, hk⟩)
+  rw [this]; rfl
+
+theorem filter_partial (f : Nat → Option M) (k : Nat) : ∀ (L : List Nat), L.Nodup →
+    ((L.filterMap fun j => (f j).map fun m => (j, m)).filter fun r => r.1 == k) =
+      if k ∈ L then ((f k).map fun m => (k, m)).toList else []
+  | [], _ => by simp
+  | x :: L, hnd => by
+    have hx : x ∉ L := (List.nodup_cons.1 hnd).1
+    have ih := filter_partial f k L (List.nodup_cons.1 hnd).2
+    by_cases hxk : x = k
+    · subst hxk
+      have hk : x ∉ L := hx
+      simp only [hk, if_false] at ih
+      cases hf : f x with
+      | none => simp [hf, ih]
+      | some m => simp [hf, ih]
+    · have hkx : (k ∈ x :: L) ↔ (k ∈ L) := by simp [Ne.symm hxk]
+      simp only [hkx]
+      rw [← ih]
+      cases hf : f x with
+      | none => simp [hf]
+      | some m => simp [hf, hxk]
+
+/-- re-aggregating the shipped rows of a partial gives the partial back -/
+theorem chunk_partialRows (op : M → M → M) (inj : V → Option M) (rows : List (Nat × V)) (k : Nat) :
+    chunk op some (partialRows op inj rows) k = chunk op inj rows k := by
+  conv => lhs; unfold chunk partialRows
+  rw [filter_partial (chunk op inj rows) k _ (nodup_dedup _)]
+  split
+  · cases h : chunk op inj rows k <;> simp [fold1, omerge]
+  · rename_i hk
+    rw [mem_dedup] at hk
+    rw [chunk_no_rows op inj rows k hk]; rfl
+
+/-- **ShuffleReduce end to end**: chunk every partition, ship the partial rows, shuffle them on the key (pieces keep the
+    source order), aggregate every output partition: group `k` gets its whole-frame aggregate in partition `h k % n` -/
+theorem groupby_shuffle_rows_eq_global (op : M → M → M) (hassoc : ∀ a b c, op (op a b) c = op a (op b c))
+    (inj : V → Option M) (h : Nat → Nat) (n p k : Nat) (parts : List (List (Nat × V))) :
+    chunk op some (shuffleOut h n p (parts.map (partialRows op inj))) k =
+      if h k % n = p then chunk op inj parts.flatten k else none := by
+  rw [shuffle_out_aggregate]
+  split
+  · rw [← combine_chunks op hassoc some, ← combine_chunks op hassoc inj, List.map_map]
+    congr 1
+    apply List.map_congr_left
+    intro rows _
+    funext j
+    exact chunk_partialRows op inj rows j
+  · rfl
+
 end Dask.Groupby
